@@ -11,8 +11,10 @@ import (
 
 	"pgregory.net/rapid"
 
+	"github.com/formancehq/go-libs/v5/pkg/query"
 	"github.com/formancehq/go-libs/v5/pkg/storage/bun/paginate"
 
+	ledger "github.com/formancehq/ledger/internal"
 	"github.com/formancehq/ledger/pkg/features"
 	e1 "github.com/formancehq/ledger/verifharness/e1_numscript"
 	"github.com/formancehq/ledger/verifharness/env"
@@ -186,6 +188,35 @@ func (w *World) FullSweep(t *rapid.T, l *LState, o HistOpts) {
 	w.CheckAccounts(l, nil, 4)
 	w.CheckVolumes(l, nil, nil, false, 0, 5)
 	w.CheckAggregated(l, nil, false, nil, nil)
+	// the same sums restricted by an address pattern and by a metadata value some account carries: these filters go
+	// through the accounts table, which every ledger of the bucket shares
+	for _, prefix := range []string{"u", "a"} {
+		prefix := prefix
+		w.CheckAggregated(l, nil, false, query.Match("address", prefix+":"), func(addr string) bool {
+			segs := strings.Split(addr, ":")
+			return len(segs) == 2 && segs[0] == prefix
+		})
+	}
+	for _, addr := range l.M.SortedAccounts() {
+		md := l.M.Accounts[addr].Metadata
+		if len(md) == 0 {
+			continue
+		}
+		key := sortedKeys(md)[0]
+		if strings.ContainsAny(key, "[]%") {
+			continue
+		}
+		val := md[key]
+		w.CheckAggregated(l, nil, false, query.Match("metadata["+key+"]", val), func(a string) bool {
+			acc := l.M.Accounts[a]
+			if acc == nil {
+				return false
+			}
+			v, ok := acc.Metadata[key]
+			return ok && v == val
+		})
+		break
+	}
 	w.CheckLogs(l, 4, paginate.OrderAsc)
 	w.CheckMovesTable(l)
 	w.CheckVolumesTable(l)
@@ -223,6 +254,16 @@ func (w *World) GenScriptRequest(t *rapid.T, l *LState) TxRequest {
 	}
 	if rapid.IntRange(0, 7).Draw(t, "scriptDry") == 0 {
 		r.DryRun = true
+	}
+	_, r.ScriptAccMeta = p.ScriptMeta()
+	if rapid.IntRange(0, 2).Draw(t, "requestAccountMetadata") == 0 {
+		// metadata for accounts in the request itself, next to what the script sets: on the same account the two are
+		// merged key by key (the request wins on a key both set)
+		addr := gen.NonWorldAccount().Draw(t, "accMetaAddr")
+		if len(r.ScriptAccMeta) > 0 && rapid.IntRange(0, 3).Draw(t, "onAScriptAccount") != 0 {
+			addr = rapid.SampledFrom(sortedKeys(r.ScriptAccMeta)).Draw(t, "scriptAccount")
+		}
+		r.AccountMetadata = map[string]map[string]string{addr: {rapid.SampledFrom([]string{"k1", "k2", "role", "tier"}).Draw(t, "amk"): gen.FreeText().Draw(t, "amv")}}
 	}
 	return r
 }
@@ -352,6 +393,14 @@ func (w *World) Drive(t *rapid.T, l, other *LState, o HistOpts) *HistorySummary 
 		actions["revert"] = func(t *rapid.T) {
 			r := RevertRequest{ID: pickTx(t), Force: rapid.IntRange(0, 2).Draw(t, "force") == 0, AtEffectiveDate: rapid.Bool().Draw(t, "atEffectiveDate"),
 				Metadata: genMeta(t, "revertMeta"), DryRun: rapid.IntRange(0, 7).Draw(t, "dry") == 0}
+			if rapid.IntRange(0, 4).Draw(t, "forwardedMark") == 0 {
+				// a client forwarding the metadata of another transaction, the revert mark of an earlier revert included:
+				// the mark of this revert names the transaction it reverts all the same
+				if r.Metadata == nil {
+					r.Metadata = map[string]string{}
+				}
+				r.Metadata[ledger.RevertMetadataSpecKey()] = fmt.Sprint(pickTx(t) + uint64(rapid.IntRange(0, 2).Draw(t, "markOffset")))
+			}
 			want := l.expectRevert(r)
 			w.noTrace(l, o.NoTrace, fmt.Sprintf("a failed or dry-run revert of %d", r.ID), func() bool {
 				out := w.Revert(l, r)
@@ -421,6 +470,10 @@ func (w *World) Drive(t *rapid.T, l, other *LState, o HistOpts) *HistorySummary 
 			m := genMeta(t, "meta")
 			if m == nil {
 				m = map[string]string{"role": "x"}
+				if rapid.Bool().Draw(t, "emptyDocument") {
+					// a write of no key at all is a metadata write nonetheless: the account exists from then on
+					m = map[string]string{}
+				}
 			}
 			dry := rapid.IntRange(0, 7).Draw(t, "dry") == 0
 			if other != nil && rapid.IntRange(0, 3).Draw(t, "onOther") == 0 {
